@@ -2,7 +2,7 @@
    Frame facts: which caller's record a label can change, and that the multiset of keys a live caller is
    concerned with (registered pairs ++ chunks still to register) is fixed from FCall to the last FUnlock. *)
 From Coq Require Import List Lia Bool Arith Permutation.
-Require Import KeyLTS KeyAgree C02_Model C02_Table C02_Inv C02_Safety C02_Progress C02_Check.
+Require Import KeyLTS KeyAgree C02_Model C02_Table C02_Inv C02_Safety C02_Progress C02_Case.
 Import ListNotations.
 
 Definition actor (l : flabel) : option nat :=
@@ -273,6 +273,117 @@ Proof.
   unfold mem. rewrite existsb_exists. split; [intros (y & Hy & E); apply Nat.eqb_eq in E; subst; exact Hy|intros H; exists x; split; [exact H|apply Nat.eqb_refl]].
 Qed.
 
+(* ---------------- a burst: several callers enter at once ---------------- *)
+Section BkBurst.
+Variable sh : nat -> nat.
+
+Lemma reg_stage s t s' : fstep sh s (FReg t) = Some s' -> exists q c todo, thr s t = Some q /\ tstage q = SReg (c :: todo).
+Proof.
+  cbn [fstep]. destruct (thr s t) as [q|]; [|discriminate]. destruct (tstage q) as [[|c todo]| |] eqn:E; try discriminate.
+  intros _. exists q, c, todo. auto.
+Qed.
+
+(* in the middle of a burst: the callers of L are as at a round boundary, the callers entered so far (C) may still be
+   registering; their key multiset is fixed *)
+Definition BkMid (L C : list caller) (s : fstate) : Prop :=
+  NoDup (map cid (L ++ C)) /\
+  forall t, match thr s t with
+            | Some q => (tstage q = SRun /\ exists ks, In (t, (ks, tw q)) L /\ Permutation ks (map fst (tregd q))) \/
+                        (exists ks, In (t, (ks, tw q)) C /\ Permutation ks (keys_of q))
+            | None => forall c, In c (L ++ C) -> cid c <> t
+            end.
+
+Lemma bkmid_start L s : Bk L s -> BkMid L [] s.
+Proof.
+  intros [Hnd Hb]. split; [rewrite app_nil_r; exact Hnd|]. intros t. specialize (Hb t). destruct (thr s t) as [q|].
+  - left. exact Hb.
+  - rewrite app_nil_r. exact Hb.
+Qed.
+
+Lemma bkmid_other L C C' s s' x : (forall c, In c C -> In c C') -> thr s' x = thr s x ->
+  match thr s x with
+  | Some q => (tstage q = SRun /\ exists ks, In (x, (ks, tw q)) L /\ Permutation ks (map fst (tregd q))) \/
+              (exists ks, In (x, (ks, tw q)) C /\ Permutation ks (keys_of q))
+  | None => True end ->
+  match thr s' x with
+  | Some q => (tstage q = SRun /\ exists ks, In (x, (ks, tw q)) L /\ Permutation ks (map fst (tregd q))) \/
+              (exists ks, In (x, (ks, tw q)) C' /\ Permutation ks (keys_of q))
+  | None => True end.
+Proof.
+  intros Hsub E H. rewrite E. destruct (thr s x) as [q|]; [|exact I]. destruct H as [H|(ks & Hin & Hp)]; [left; exact H|right; exists ks; split; [apply Hsub, Hin|exact Hp]].
+Qed.
+
+Lemma bkmid_call L C s t ks w s' : BkMid L C s -> fstep sh s (FCall t ks w) = Some s' -> BkMid L (C ++ [(t, (ks, w))]) s'.
+Proof.
+  intros [Hnd Hb] H. destruct (call_record sh s t ks w s' H) as (Hnone & q & A & B & P).
+  assert (Hfresh : forall c, In c (L ++ C) -> cid c <> t) by (specialize (Hb t); rewrite Hnone in Hb; exact Hb).
+  split.
+  - rewrite app_assoc, map_app. cbn [map cid fst]. apply nodup_snoc; [exact Hnd|]. intros Hin. apply in_map_iff in Hin. destruct Hin as (c & Ec & Hc). exact (Hfresh c Hc Ec).
+  - intros x. destruct (Nat.eq_dec x t) as [->|Hx].
+    + rewrite A. right. exists ks. split; [apply in_or_app; right; left; rewrite B; reflexivity|exact P].
+    + rewrite (thr_frame sh s _ s' x H) by (cbn [actor]; congruence). specialize (Hb x). destruct (thr s x) as [qx|].
+      * destruct Hb as [Hb|(ks' & Hin & Hp)]; [left; exact Hb|right; exists ks'; split; [apply in_or_app; left; exact Hin|exact Hp]].
+      * intros c Hc. rewrite app_assoc in Hc. apply in_app_or in Hc. destruct Hc as [Hc|[<-|[]]]; [apply Hb, Hc|cbn [cid fst]; congruence].
+Qed.
+
+Lemma bkmid_tail L C : forall ls s s', BkMid L C s ->
+  Forall (fun l => actor l = None \/ exists x, l = FReg x) ls -> frun sh s ls = Some s' -> BkMid L C s'.
+Proof.
+  induction ls as [|l ls IH]; intros s s' HB Hall H.
+  - unfold frun in H. cbn in H. inversion H; subst. exact HB.
+  - rewrite frun_cons in H. destruct (fstep sh s l) as [s1|] eqn:E; [|discriminate]. inversion Hall as [|? ? Hl Hls]; subst.
+    apply (IH s1 s'); [|exact Hls|exact H]. destruct HB as [Hnd Hb]. split; [exact Hnd|]. intros t.
+    destruct Hl as [Hl|(x & ->)].
+    + rewrite (thr_frame sh s l s1 t E) by (rewrite Hl; discriminate). apply Hb.
+    + destruct (Nat.eq_dec t x) as [->|Hne]; [|rewrite (thr_frame sh s _ s1 t E) by (cbn [actor]; congruence); apply Hb].
+      destruct (reg_record sh s x s1 E) as (q & q' & A & B & Cw & K). destruct (reg_stage s x s1 E) as (q0 & c & todo & A0 & St).
+      rewrite A in A0. inversion A0; subst q0. specialize (Hb x). rewrite A in Hb. rewrite B.
+      destruct Hb as [(Hrun & _)|(ks & Hin & Hp)]; [congruence|]. right. exists ks. rewrite Cw, K. auto.
+Qed.
+
+Lemma burst_split ids : forall cs ls, burst_labels ids cs ls = true ->
+  exists rest, ls = map (fun c => FCall (fst c) (fst (snd c)) (snd (snd c))) cs ++ rest /\
+               forallb (fun l => internal l || match l with FReg x => mem x ids | _ => false end) rest = true.
+Proof.
+  induction cs as [|[t [ks w]] cs IH]; intros ls H; cbn [burst_labels] in H.
+  - exists ls. auto.
+  - destruct ls as [|l ls]; [discriminate|]. destruct l; try discriminate. apply andb_prop in H. destruct H as [H Hr].
+    apply andb_prop in H. destruct H as [H Hw]. apply andb_prop in H. destruct H as [Ht Hks].
+    apply Nat.eqb_eq in Ht. apply nlist_eqb_eq in Hks. apply Bool.eqb_prop in Hw. subst. destruct (IH ls Hr) as (rest & -> & Hrest).
+    exists rest. cbn [map fst snd app]. auto.
+Qed.
+
+Lemma frun_app : forall l1 l2 s, frun sh s (l1 ++ l2) = match frun sh s l1 with Some s1 => frun sh s1 l2 | None => None end.
+Proof.
+  induction l1 as [|l l1 IH]; intros l2 s; [reflexivity|]. cbn [app]. rewrite !frun_cons. destruct (fstep sh s l); [apply IH|reflexivity].
+Qed.
+
+Lemma bkmid_calls L : forall cs C s s', BkMid L C s ->
+  frun sh s (map (fun c => FCall (fst c) (fst (snd c)) (snd (snd c))) cs) = Some s' -> BkMid L (C ++ cs) s'.
+Proof.
+  induction cs as [|[t [ks w]] cs IH]; intros C s s' HB H.
+  - unfold frun in H. cbn in H. inversion H; subst. rewrite app_nil_r. exact HB.
+  - cbn [map fst snd] in H. rewrite frun_cons in H. destruct (fstep sh s (FCall t ks w)) as [s1|] eqn:E; [|discriminate].
+    pose proof (IH (C ++ [(t, (ks, w))]) s1 s' (bkmid_call L C s t ks w s1 HB E) H) as R. rewrite <- app_assoc in R. exact R.
+Qed.
+
+Lemma bk_burst_round L s0 cs ls s' nt : Bk L s0 -> frun sh s0 ls = Some s' -> burst_labels (map fst cs) cs ls = true ->
+  quiescent nt s' = true -> (forall c, In c cs -> fst c < nt) -> Bk (L ++ cs) s'.
+Proof.
+  intros HB Hrun Hlab Hq Hlt. destruct (burst_split _ cs ls Hlab) as (rest & -> & Hrest). rewrite frun_app in Hrun.
+  destruct (frun sh s0 (map (fun c => FCall (fst c) (fst (snd c)) (snd (snd c))) cs)) as [s1|] eqn:E1; [|discriminate].
+  pose proof (bkmid_calls L cs [] s0 s1 (bkmid_start L s0 HB) E1) as HM. cbn [app] in HM.
+  assert (Htail : Forall (fun l => actor l = None \/ exists x, l = FReg x) rest).
+  { apply Forall_forall. intros l Hl. rewrite forallb_forall in Hrest. specialize (Hrest l Hl). apply orb_prop in Hrest.
+    destruct Hrest as [Hi|Hr]; [left; apply internal_actor, Hi|]. destruct l; try discriminate. right. eexists. reflexivity. }
+  destruct (bkmid_tail L cs rest s1 s' HM Htail Hrun) as [Hnd Hb]. split; [exact Hnd|]. intros t. specialize (Hb t).
+  destruct (thr s' t) as [q|] eqn:Et; [|exact Hb]. destruct Hb as [(S1 & ks & Hin & Hp)|(ks & Hin & Hp)].
+  - split; [exact S1|]. exists ks. split; [apply in_or_app; left; exact Hin|exact Hp].
+  - pose proof (thread_quiet_stage s' t q (quiescent_thread nt s' t Hq (Hlt _ Hin)) Et) as Hst. split; [exact Hst|].
+    exists ks. split; [apply in_or_app; right; exact Hin|]. unfold keys_of, todo_of in Hp. rewrite Hst in Hp. cbn [concat] in Hp. rewrite app_nil_r in Hp. exact Hp.
+Qed.
+End BkBurst.
+
 Definition safety_round (L : list caller) (o : obs) : bool := ret_live L o && excl_ok L o.
 Fixpoint safety_rounds (L : list caller) (rs : list round) : bool :=
   match rs with
@@ -305,13 +416,17 @@ Proof.
   apply andb_prop in Hrun. destruct Hrun as [Hrun Hrest]. apply andb_prop in Hrun. destruct Hrun as [Hq Ho].
   pose proof (frun_inv sh (r_labels r) s s' HF Er) as HF'.
   assert (HB' : Bk (live_after L (r_act r)) s').
-  { unfold labels_ok in Hlab. unfold act_in_range in Hrange. destruct (r_act r) as [t ks w|t]; destruct (r_labels r) as [|l rest]; try discriminate.
-    - destruct l; try discriminate. apply andb_prop in Hlab. destruct Hlab as [Hl Hrest']. apply andb_prop in Hl. destruct Hl as [Hl Hw].
+  { unfold labels_ok in Hlab. unfold act_in_range in Hrange. destruct (r_act r) as [t ks w|t|cs].
+    - destruct (r_labels r) as [|l rest]; try discriminate.
+      destruct l; try discriminate. apply andb_prop in Hlab. destruct Hlab as [Hl Hrest']. apply andb_prop in Hl. destruct Hl as [Hl Hw].
       apply andb_prop in Hl. destruct Hl as [Ht Hks]. apply Nat.eqb_eq in Ht. apply nlist_eqb_eq in Hks. apply Bool.eqb_prop in Hw. subst.
       apply andb_prop in Hrange. destruct Hrange as [Hlt _]. apply Nat.ltb_lt in Hlt. cbn [live_after].
       apply (bk_call_round sh L s _ _ _ rest s' nt HB Er Hrest' Hq Hlt).
-    - destruct l; try discriminate. apply andb_prop in Hlab. destruct Hlab as [Ht Hrest']. apply Nat.eqb_eq in Ht. subst.
-      apply Nat.ltb_lt in Hrange. cbn [live_after]. apply (bk_release_round sh L s _ rest s' nt HB Er Hrest' Hq Hrange). }
+    - destruct (r_labels r) as [|l rest]; try discriminate.
+      destruct l; try discriminate. apply andb_prop in Hlab. destruct Hlab as [Ht Hrest']. apply Nat.eqb_eq in Ht. subst.
+      apply Nat.ltb_lt in Hrange. cbn [live_after]. apply (bk_release_round sh L s _ rest s' nt HB Er Hrest' Hq Hrange).
+    - cbn [live_after]. apply (bk_burst_round sh L s cs (r_labels r) s' nt HB Er Hlab Hq). intros c Hc. rewrite forallb_forall in Hrange.
+      specialize (Hrange c Hc). apply andb_prop in Hrange. destruct Hrange as [Hr _]. apply Nat.ltb_lt, Hr. }
   cbn [safety_rounds]. apply andb_true_intro. split; [apply (safety_of_state _ s' nt nk _ HF' HB' Ho)|apply (IH s' _ HF' HB' Hrest)].
 Qed.
 End Sound.
